@@ -24,8 +24,8 @@ import (
 type c05File struct{}
 
 func (c05File) Stat() (fs.FileInfo, error) { return nil, errors.New("no stat") }
-func (c05File) Read(p []byte) (int, error)  { return 0, io.EOF }
-func (c05File) Close() error                { return nil }
+func (c05File) Read(p []byte) (int, error) { return 0, io.EOF }
+func (c05File) Close() error               { return nil }
 
 var c05 struct {
 	lookupFails bool
@@ -326,15 +326,15 @@ var c05g struct {
 	wrote      []byte
 }
 
-func c05Accept(m *tubes.Muxer) (tubes.Tube, error)       { return &tubes.Reliable{}, nil }
-func c05TubeType(r *tubes.Reliable) tubes.TubeType       { return tubes.TubeType(c05g.tubeType) }
-func c05TubeClose(r *tubes.Reliable) error               { return nil }
+func c05Accept(m *tubes.Muxer) (tubes.Tube, error) { return &tubes.Reliable{}, nil }
+func c05TubeType(r *tubes.Reliable) tubes.TubeType { return tubes.TubeType(c05g.tubeType) }
+func c05TubeClose(r *tubes.Reliable) error         { return nil }
 func c05TubeWrite(r *tubes.Reliable, b []byte) (int, error) {
 	c05g.wrote = append(c05g.wrote, b...)
 	return len(b), nil
 }
-func c05GetInitMsg(r *tubes.Reliable) string               { return c05g.user }
-func c05FetchLeaf(h *transport.Handle) *certs.Certificate  { return c05g.leaf }
+func c05GetInitMsg(r *tubes.Reliable) string              { return c05g.user }
+func c05FetchLeaf(h *transport.Handle) *certs.Certificate { return c05g.leaf }
 func c05AuthorizeKey(s *HopServer, user string, k keys.DHPublicKey) error {
 	c05g.akCalls++
 	c05g.akUser, c05g.akKey = user, k
@@ -393,7 +393,7 @@ func VH_C05_login_is_decided_by_listed_key_or_live_grant_for_the_authenticated_k
 	}
 	if ok {
 		verifAssert(verifStrEq(sess.user, c05g.user), "C05: the session runs as the requested user")
-		verifAssert(sess.usingAuthGrant == !c05g.akOK, "C05: the session remembers that it was admitted through grants (so that C07's gates apply)")
+		verifAssert((len(sess.authorizedActions) > 0) == !c05g.akOK, "C05: a session admitted through grants carries exactly those grants, a session admitted by its key none (C07's gates depend on it)")
 		if c05g.akOK {
 			verifCover("admitted-by-key")
 		} else {
@@ -401,5 +401,91 @@ func VH_C05_login_is_decided_by_listed_key_or_live_grant_for_the_authenticated_k
 		}
 	} else {
 		verifCover("refused")
+	}
+}
+
+// The parser sees the WHOLE authorized_keys file: whatever its size, every byte
+// the file holds is offered to the parser (a silent cut could end the file right
+// after a complete entry and hide the malformed rest that must make it fail
+// closed).
+
+type c05BigFile struct {
+	size, off int
+}
+
+func (f *c05BigFile) Stat() (fs.FileInfo, error) { return nil, errors.New("no stat") }
+func (f *c05BigFile) Close() error               { return nil }
+func (f *c05BigFile) Read(p []byte) (int, error) {
+	if f.off >= f.size {
+		return 0, io.EOF
+	}
+	n := len(p)
+	if n > f.size-f.off {
+		n = f.size - f.off
+	}
+	f.off += n
+	return n, nil
+}
+
+type c05BigFS struct{ f *c05BigFile }
+
+func (s c05BigFS) Open(name string) (fs.File, error) { return s.f, nil }
+
+var c05Seen int
+
+func c05CountingParser(r io.Reader) (core.AuthorizedKeys, error) {
+	buf := make([]byte, 32768)
+	for i := 0; i < 64; i++ {
+		n, err := r.Read(buf)
+		c05Seen += n
+		if err != nil {
+			break
+		}
+	}
+	return nil, errors.New("stop")
+}
+
+//verif:prop C05
+//verif:stub hop.computer/hop/config.UserDirectoryFor = c05UserDirectoryFor
+//verif:stub hop.computer/hop/core.ParseAuthorizedKeys = c05CountingParser
+//verif:replay none
+//verif:bounds authorized_keys file of symbolic size 0..1 MiB (contents irrelevant); the parser is replaced by a reader that counts the bytes it is offered
+//verif:cover read
+func VH_C05_the_whole_authorized_keys_file_reaches_the_parser() {
+	c05.lookupFails = false
+	c05Seen = 0
+	size := verifInt("file-size")
+	verifAssume(size >= 0 && size <= 1<<20)
+	s := &HopServer{fsystem: c05BigFS{&c05BigFile{size: size}}, config: &config.ServerConfig{}}
+	var pk keys.DHPublicKey
+	_ = s.AuthorizeKey("alice", pk)
+	verifCover("read")
+	verifAssert(c05Seen == size, "C05: every byte of the authorized_keys file is offered to the parser (no silent size cut that could hide a malformed tail)")
+}
+
+// AddAuthGrant reports success iff the grant really is in the server's maps: a
+// target that answers "confirmed" must be able to honour the grant (C06) and a
+// refused grant must leave nothing behind.
+//
+//verif:prop C06
+//verif:bounds hop server with authorization grants enabled or not, with or without a transport-layer key set (InsecureSkipVerify servers have none); one intent with symbolic user byte and key byte
+//verif:cover stored;refused
+func VH_C06_target_reports_a_grant_stored_only_if_it_is_stored() {
+	enabled := verifBool("authgrants-enabled")
+	s := &HopServer{config: &config.ServerConfig{EnableAuthgrants: enabled}, agMap: authgrants.NewAuthgrantMapSync()}
+	if verifBool("has-key-set") {
+		s.keyStore = authkeys.NewSyncAuthKeySet()
+	}
+	in := &authgrants.Intent{TargetUsername: verifString("user", 1), GrantType: authgrants.Shell, ExpTime: time.Unix(2000000000, 0)}
+	in.DelegateCert.PublicKey[0] = verifU8("delegate-key")
+	err := s.AddAuthGrant(in)
+	got, gerr := s.agMap.RemoveAuthgrants(in.TargetUsername, in.DelegateCert.PublicKey)
+	if err == nil {
+		verifCover("stored")
+		verifAssert(gerr == nil && len(got) == 1, "C06: when the target reports a grant as stored (and confirms it to the principal), the grant is in its grant map")
+		verifAssert(enabled, "C06: grants are stored only when enabled")
+	} else {
+		verifCover("refused")
+		verifAssert(gerr != nil || len(got) == 0, "C06: a refused grant leaves nothing behind")
 	}
 }
